@@ -47,7 +47,7 @@ def cases(draw):
         st.tuples(st.just("equivocate"), st.integers(0, 5), st.integers(0, 8), st.integers(0, 500)),
         st.tuples(st.just("delete"), which, st.just(""), st.just(0)),
     )
-    return {"k": k, "n": n, "seg": seg, "size": size, "servers": draw(st.integers(1, n + 1)), "guess": draw(st.sampled_from([None, None, 16, 100, 1000])), "damage": draw(st.lists(dmg, min_size=1, max_size=4)),
+    return {"hsalt": draw(st.integers(0, 15)), "k": k, "n": n, "seg": seg, "size": size, "servers": draw(st.integers(1, n + 1)), "guess": draw(st.sampled_from([None, None, 16, 100, 1000])), "damage": draw(st.lists(dmg, min_size=1, max_size=4)),
             "down": draw(st.lists(st.integers(0, 30), max_size=60)), "read": [draw(st.integers(0, size)), draw(st.integers(1, size))]}
 
 
